@@ -354,3 +354,29 @@ pub fn bcf_read_file(bytes: &[u8], api: usize, max: usize) -> Result<Vec<Rec>, F
         Ok(out)
     })
 }
+
+/// One writer instance, the header, then every record in order; returns the bytes and, per record,
+/// whether the write was accepted (`Ok`) or rejected (`Err(text)`).
+pub fn vcf_write_ops(h: &vcf::Header, recs: &[RecordBuf]) -> Result<(Vec<u8>, Vec<Result<(), String>>), Fail> {
+    guard(|| {
+        let mut w = vcf::io::Writer::new(Vec::new());
+        w.write_header(h).map_err(ioe)?;
+        let mut res = Vec::new();
+        for r in recs {
+            res.push(w.write_variant_record(h, r).map_err(ioe));
+        }
+        Ok((w.into_inner(), res))
+    })
+}
+
+pub fn bcf_write_ops(h: &vcf::Header, recs: &[RecordBuf]) -> Result<(Vec<u8>, Vec<Result<(), String>>), Fail> {
+    guard(|| {
+        let mut w = bcf::io::Writer::from(Vec::new());
+        w.write_header(h).map_err(|e| format!("write_header: {}", ioe(e)))?;
+        let mut res = Vec::new();
+        for r in recs {
+            res.push(w.write_variant_record(h, r).map_err(ioe));
+        }
+        Ok((w.into_inner(), res))
+    })
+}
